@@ -118,12 +118,43 @@ def gz_bytes(data, level=6, mtime=0, name=None):
     return buf.getvalue()
 
 
+def gz_header_fields(data, level=6, mtime=0, name=None, extra=None, comment=None, hcrc=False, ftext=False):
+    """gzip member with the optional header fields of RFC 1952 (FEXTRA, FNAME, FCOMMENT, FHCRC, FTEXT), built by hand"""
+    import struct
+    import zlib
+    flg = (1 if ftext else 0) | (2 if hcrc else 0) | (4 if extra is not None else 0) | (8 if name else 0) | (16 if comment is not None else 0)
+    hdr = b"\x1f\x8b\x08" + bytes([flg]) + struct.pack("<I", mtime) + b"\x00\x03"
+    if extra is not None:
+        hdr += struct.pack("<H", len(extra)) + extra
+    if name:
+        hdr += name.encode("latin-1") + b"\0"
+    if comment is not None:
+        hdr += comment + b"\0"
+    if hcrc:
+        hdr += struct.pack("<H", zlib.crc32(hdr) & 0xFFFF)
+    co = zlib.compressobj(level, zlib.DEFLATED, -15)
+    body = co.compress(data) + co.flush()
+    return hdr + body + struct.pack("<II", zlib.crc32(data) & 0xFFFFFFFF, len(data) & 0xFFFFFFFF)
+
+
 def bz2_bytes(data, level=9):
     return bz2.compress(data, level)
 
 
 def xz_bytes(data, preset=6, check=lzma.CHECK_CRC64):
     return lzma.compress(data, format=lzma.FORMAT_XZ, preset=preset, check=check)
+
+
+def xz_blocks_bytes(data, block_size=4096, check="crc32"):
+    """single-stream .xz with several blocks, made by the xz command line tool (python's lzma writes one block); None if
+    the tool is not installed"""
+    import shutil
+    exe = shutil.which("xz")
+    if not exe:
+        return None
+    p = subprocess.run([exe, "-c", "--block-size=%d" % block_size, "--check=" + check], input=data, stdout=subprocess.PIPE,
+                       stderr=subprocess.PIPE)
+    return p.stdout if p.returncode == 0 and p.stdout else None
 
 
 def tar_bytes(members, fmt=tarfile.USTAR_FORMAT, mtime=0):
